@@ -41,7 +41,7 @@ N = {"quick": 1920, "thorough": 64000}
 TIME_LIMIT = {"quick": 40, "thorough": 560}
 SHARDS = 16
 REACH = {
-    "quick": {"fresh_comparisons": 3000, "histories": 300, "failed_call_then_dependent_call": 50,
+    "quick": {"fresh_comparisons": 3000, "histories": 300, "failed_call_then_dependent_call": 50, "shared_parsed_reader_reads": 300,
               "name_collision_pairs": 100, "reused_parsed_schema": 100, "argument_snapshots": 3000},
     "thorough": {"fresh_comparisons": 100000},
 }
@@ -468,7 +468,8 @@ def _run_history(sh, fa, zy, rng, scratch, hidx, schemas, repo_dir, repo_root, r
         kind = rng.choice(["parse", "parse_shared", "swrite", "sread", "cwrite", "cread", "validate", "validate_many", "pcf",
                            "jwrite", "jread", "generate", "expand", "swrite_bad", "sread_trunc", "parse_unknown_ref", "cwrite_bad",
                            "gen_roundtrip", "gen_roundtrip", "dangling_ref", "dangling_ref", "load", "load_other",
-                           "cwrite_meta", "cwrite_meta", "tee_block", "swrite_opts", "swrite_opts", "cwrite_opts"])
+                           "cwrite_meta", "cwrite_meta", "tee_block", "swrite_opts", "swrite_opts", "cwrite_opts",
+                           "sread_shared_reader", "sread_shared_reader"])
         name, args, data_args = None, None, []
         if kind == "parse":
             name, args = "parse", (sarg, None)
@@ -497,8 +498,31 @@ def _run_history(sh, fa, zy, rng, scratch, hidx, schemas, repo_dir, repo_root, r
         elif kind == "sread":
             st, raw = guard(op_swrite, fa, copy.deepcopy(js), d)
             if st == "ok":
-                other = schemas["s2" if which == "s1" else "s1"][0]
-                name, args = "sread", (raw, sarg, rng.choice([None, None, objs["raw_" + which], copy.deepcopy(other)]))
+                okey = "s2" if which == "s1" else "s1"
+                other = schemas[okey][0]
+                # (a parsed reader schema object that earlier and later reads share, met by data of
+                # this and of the other definition of the same names)
+                rs = rng.choice([None, None, objs["raw_" + which], copy.deepcopy(other), objs.get("parsed_" + okey), objs.get("parsed_" + which), objs.get("parsed_s1")])
+                if rs is not None and rs is objs.get("parsed_" + okey):
+                    sh.count("shared_parsed_reader_other_writer")
+                name, args = "sread", (raw, sarg, rs)
+        elif kind == "sread_shared_reader" and which in ("s1", "s2"):
+            # one parsed reader schema object for the whole history, met by data written under
+            # either definition of its names (s1 / s2), directly and in a container
+            if "parsed_reader" not in objs:
+                st, ps = guard(fa.parse_schema, copy.deepcopy(schemas["s2"][0]))
+                if st == "ok":
+                    objs["parsed_reader"] = ps
+            if "parsed_reader" in objs:
+                if rng.random() < 0.6:
+                    st, raw = guard(op_swrite, fa, copy.deepcopy(js), d)
+                    if st == "ok":
+                        name, args = "sread", (raw, copy.deepcopy(js), objs["parsed_reader"])
+                else:
+                    st, raw = guard(op_cwrite, fa, copy.deepcopy(js), [d, d], "null")
+                    if st == "ok":
+                        name, args = "cread", (raw, objs["parsed_reader"])
+                sh.count("shared_parsed_reader_reads")
         elif kind == "sread_trunc":
             st, raw = guard(op_swrite, fa, copy.deepcopy(js), d)
             if st == "ok" and len(raw) > 1:
@@ -518,7 +542,8 @@ def _run_history(sh, fa, zy, rng, scratch, hidx, schemas, repo_dir, repo_root, r
         elif kind == "cread":
             st, raw = guard(op_cwrite, fa, copy.deepcopy(js), [d], "null")
             if st == "ok":
-                name, args = "cread", (raw if rng.random() < 0.8 else raw[: len(raw) - rng.randint(1, 20)], rng.choice([None, None, sarg]))
+                name, args = "cread", (raw if rng.random() < 0.8 else raw[: len(raw) - rng.randint(1, 20)],
+                                       rng.choice([None, None, sarg, objs.get("parsed_s1"), objs.get("parsed_s2")]))
         elif kind == "validate":
             if rng.random() < 0.5:
                 # data on which the options make a difference: omitted nullable fields, hints, extra keys
